@@ -1,3 +1,5 @@
+// OS-thread backend of the deterministic scheduler (used by the sanitizer builds; see vsched_uctx.cpp)
+#ifndef VS_UCONTEXT
 #include "vsched.h"
 #include <unistd.h>
 #include <string.h>
@@ -345,3 +347,5 @@ void thread::join()
   vid = -1;
 }
 } // namespace vsched
+
+#endif
